@@ -1040,6 +1040,14 @@ func (cli *Client) readAt(ctx context.Context, id core.BlobID, b []byte, offset 
 		}
 	}
 
+	// If every tract read succeeded but we got fewer bytes than requested, the
+	// curator returned fewer tracts than the range covers, i.e. the blob ends
+	// inside the requested range. The tractserver only reports EOF for a short
+	// read, so when the last tract is exactly full nobody has said EOF yet.
+	if err == core.NoError && read < len(b) {
+		err = core.ErrEOF
+	}
+
 	if err != core.NoError && err != core.ErrEOF && tractsWereCached {
 		// Maybe we got older cached tracts.
 		cli.tractCache.invalidate(id)
